@@ -20,11 +20,13 @@ Fixpoint shift_expr (b : nat) (e : expr) : expr :=
   | EVar x => EVar (b + x)
   | EUn op e1 => EUn op (shift_expr b e1)
   | EBin op l r => EBin op (shift_expr b l) (shift_expr b r)
+  | EIdx b0 lo n ki i => EIdx (b + b0) lo n ki (shift_expr b i)
   end.
 Fixpoint shift_stmt (b : nat) (st : stmt) {struct st} : stmt :=
   let sb := fix sb (l : list stmt) : list stmt := match l with [] => [] | s1 :: l' => shift_stmt b s1 :: sb l' end in
   match st with
   | SAssign x e => SAssign (b + x) (shift_expr b e)
+  | SAssignIdx b0 lo n ki i e => SAssignIdx (b + b0) lo n ki (shift_expr b i) (shift_expr b e)
   | SIf c t elifs el =>
       SIf (shift_expr b c) (sb t)
           ((fix se (l : list (expr * list stmt)) : list (expr * list stmt) :=
@@ -47,6 +49,7 @@ Fixpoint wr (P : nat -> bool) (st : stmt) {struct st} : bool :=
   let wb := fix wb (l : list stmt) : bool := match l with [] => true | s1 :: l' => wr P s1 && wb l' end in
   match st with
   | SAssign x _ => P x
+  | SAssignIdx b0 _ n _ _ _ => forallb (fun j => P (b0 + j)%nat) (seq 0 n)
   | SIf _ t elifs el =>
       wb t && (fix we (l : list (expr * list stmt)) : bool := match l with [] => true | (_, blk) :: l' => wb blk && we l' end) elifs && wb el
   | SCase _ brs el =>
